@@ -1,5 +1,5 @@
 use rusty_linter::core::LintError;
-use rusty_variant::{SubscriptOutOfRangeError, VariantError};
+use rusty_variant::{OutOfMemoryError, SubscriptOutOfRangeError, VariantError};
 
 use crate::error_envelope::ErrorEnvelope;
 
@@ -20,6 +20,7 @@ pub enum RuntimeError {
     InputPastEndOfFile,
     LinterError(LintError),
     OutOfData,
+    OutOfMemory,
     Overflow,
     ReturnWithoutGoSub,
     SubscriptOutOfRange,
@@ -36,6 +37,7 @@ impl RuntimeError {
             Self::OutOfData => 4,
             Self::IllegalFunctionCall => 5,
             Self::Overflow => 6,
+            Self::OutOfMemory => 7,
             Self::SubscriptOutOfRange => 9,
             Self::DivisionByZero => 11,
             Self::TypeMismatch => 13,
@@ -91,6 +93,12 @@ impl From<VariantError> for RuntimeError {
             VariantError::Overflow => Self::Overflow,
             VariantError::TypeMismatch => Self::TypeMismatch,
         }
+    }
+}
+
+impl From<OutOfMemoryError> for RuntimeError {
+    fn from(_: OutOfMemoryError) -> Self {
+        Self::OutOfMemory
     }
 }
 
